@@ -1,7 +1,9 @@
 #!/bin/bash
-# usage: ingest_r1.sh <worker> <list of Cxx:variant>
-w=$1; shift
+# usage: ingest_q.sh <worker> <round> <Cxx:variant>...   (waits for the worker's running ingest, skips ingested seeds)
+w=$1; r=$2; shift; shift
+while pgrep -f "ingest_seed.py .* --worker $w\$" > /dev/null; do sleep 20; done
 for sv in "$@"; do
   p=${sv%%:*}; v=${sv##*:}
-  python3 /verif/tools/ingest_seed.py ${p}-r1-${v} $p /tmp/seed/${p}-r1/out/${v} --worker $w > /tmp/seed/confirm/ingest-${p}-r1-${v}.out 2>&1
+  [ -f /verif/seeded/${p}-${r}-${v}/meta.json ] && continue
+  python3 /verif/tools/ingest_seed.py ${p}-${r}-${v} $p /tmp/seed/${p}-${r}/out/${v} --worker $w > /tmp/seed/confirm/ingest-${p}-${r}-${v}.out 2>&1
 done
